@@ -185,6 +185,13 @@ def replay(ctx: fw.Ctx, spec: dict, rec: dict) -> int:
             st.record(case)
             if (a == b) != same:
                 st.fail("== disagrees with structural identity", case)
+    elif kind == "options":
+        st.record(case)
+        src = bytes.fromhex(case["source"]).decode("utf-8", "surrogatepass")
+        plain = "".join("?" if 0xD800 <= ord(ch) <= 0xDFFF or ord(ch) > 127 or ch == "\x00" else ch for ch in src)
+        got, want = option_error_pos(src, case["typed"], case["ignore_unicode_errors"]), option_error_pos(plain, case["typed"], case["ignore_unicode_errors"])
+        if got[0] == "parser" and want[0] == "parser" and got != want:
+            st.fail("the position of the ParserError token depends on characters inside strings/comments", dict(case, got=got, want=want))
     elif kind == "linkpair":
         st.record(case)
         msg = eval_linkpair(case["source"], case["how"])
@@ -1386,6 +1393,40 @@ def run_c16(ctx: fw.Ctx) -> None:
     st3.notes["parser_errors"] = len(items)
     t2_lex(ctx, progs[: ctx.n(300, 5000)] + [m for m, _, _ in items])
     t2_parse(ctx, [m for m, _, _ in items])
+    st4 = ctx.stream("positions under the constructor options (typed, ignore_unicode_errors) with characters the options concern")
+    from tumfl.parser import Parser
+    specials = ["\udce9", "\udc80\udcff", "\ud800", "é", "\x00"]
+    tmpls = ['local s = "caf{X}" .. .. x', "-- c{X}c\nx = = 1", 'x = "{X}"; y = "{X}{X}" z w', "f('{X}', [[{X}\n]]) ) ", "x = 1 -- {X}\n y z"]
+    for tm in tmpls:
+        for sp in specials:
+            src = tm.replace("{X}", sp)
+            plain = tm.replace("{X}", "?" * len(sp))
+            for typed in (False, True):
+                for iu in (False, True):
+                    case = {"kind": "options", "source": src.encode("utf-8", "surrogatepass").hex(), "typed": typed, "ignore_unicode_errors": iu}
+                    st4.record(case, key=json.dumps(case, sort_keys=True))
+                    got, want = option_error_pos(src, typed, iu), option_error_pos(plain, typed, iu)
+                    if got[0] == "parser" and want[0] == "parser" and got != want:
+                        st4.fail("the position of the ParserError token depends on characters inside strings/comments", dict(case, got=got, want=want))
+                    elif got[0] == "other":
+                        st4.fail(f"parse raised {got[1]}", case)
+    st4.exhaustive = True
+
+
+def option_error_pos(src: str, typed: bool, iu: bool):
+    from tumfl.parser import Parser
+    with quiet():
+        try:
+            p = Parser(src, typed=typed, ignore_unicode_errors=iu)
+            p.parse_chunk()
+            p._assert(TokenType.EOF)  # noqa: SLF001
+            return ("ok",)
+        except ParserError as e:
+            return ("parser", e.token.type.name, e.token.line, e.token.column)
+        except LexerError as e:
+            return ("lexer", e.line, e.column)
+        except Exception as e:  # noqa: BLE001
+            return ("other", type(e).__name__)
 
 
 def run_c20(ctx: fw.Ctx) -> None:
@@ -1713,6 +1754,10 @@ def run_c09(ctx: fw.Ctx) -> None:
     for n in (10, 20):
         deep += ["x=" + "{" * n, "x=" + "{" * n + "}" * n, "x=" + "(" * n + "1" + ")" * n, "x=" + "(" * n, "x=" + "a{" * n, "do " * n + "end " * n, "x=" + "function() return " * n,
                  "x=" + "f(" * n, "x=" + "a[" * n, "if a then " * n, "x=" + "{{" * (n // 2) + "}," * (n // 2), "while a do " * n, "x=" + "-(" * n]
+    for n in range(5, 21, 3):
+        deep += ["x=" + "f(" * n + "1" + ")" * n, "f(" * n + ")" * n, "x=" + "{" * n + "}" * n, "x=" + "{f(" * (n // 2) + "1" + ")}" * (n // 2),
+                 "while a do " * n + "end " * n, "x=" + "function() return " * n + "1" + " end" * n, "if a then " * n + "end " * n,
+                 "x=" + "a[" * n + "1" + "]" * n, "x=" + "(" * n + "a" + ")" * n + "()", "x=" + "t:m(" * n + ")" * n, "repeat " * n + "until a " * n]
     for n in (100, 400):
         deep += ["x=" + "-" * n + "1", "x=" + "not " * n, "x=" + "1+" * n + "1", "x=" + "1^" * (n // 4) + "1", "x=" + "1 .. " * (n // 4) + "1", "x=" + "a." * n + "b", ";" * n,
                  "x=a" + "()" * n, "x=a" + "[1]" * n, "x={" + "1," * n + "}", "f(" + "1," * n + "1)", "local " + "a," * n + "a", "x=1 " * n]
@@ -1770,6 +1815,38 @@ def run_c10(ctx: fw.Ctx) -> None:
     st_s.exhaustive = True
     r2 = ctx.rng("c10sub")
     t2_parse(ctx, srcs[:: ctx.n(4, 1)] + r2.sample(subs, ctx.n(3000, 60000)))
+    st_f = ctx.stream("the same texts through the file entry point (resolve_recursive on the file, and as a required file): accepted iff parse accepts")
+    texts = r2.sample([t for t in subs if "require" not in t], ctx.n(250, 4000)) + [t for t in srcs[:: ctx.n(40, 5)] if "require" not in t and "\x00" not in t]
+    texts += ["local M = {} M.ready = true end M.launch()", "return 1 launch()", "x = 1 end", "x = 1 until y", "return 1; x = 2", "x = 1 else"]
+    root = Path(tempfile.mkdtemp(prefix="tumfl-c10-"))
+    try:
+        for i, t in enumerate(texts):
+            case = {"kind": "text", "source": t, "entry": "file"}
+            st_f.record(case, key=t)
+            direct = tparse(t)[0]
+            try:
+                (root / "m.lua").write_text(t, encoding="utf-8")
+            except UnicodeEncodeError:
+                continue
+            (root / "main.lua").write_text("before()\nrequire('m')\nafter()\n", encoding="utf-8")
+            outcomes = []
+            for entry in ("m.lua", "main.lua"):
+                with quiet():
+                    try:
+                        with_watchdog(10, tumfl.resolve_recursive, root / entry, [])
+                        outcomes.append("ok")
+                    except (LexerError,):
+                        outcomes.append("lexer")
+                    except ParserError:
+                        outcomes.append("parser")
+                    except Exception as e:  # noqa: BLE001
+                        outcomes.append("other:" + type(e).__name__)
+            for entry, o in zip(("as the main file", "as a required file"), outcomes):
+                if (o == "ok") != (direct == "ok"):
+                    st_f.fail(f"parse() says {direct} but resolve_recursive {entry} says {o}: the file entry point accepts other texts than parse", case)
+                    break
+    finally:
+        shutil.rmtree(root, ignore_errors=True)
 
 
 def eval_accept(st: fw.Stream, srcs: list[str]) -> None:
@@ -1801,6 +1878,10 @@ def run_c19(ctx: fw.Ctx) -> None:
     st = ctx.stream("accepted programs: context chain empty after parse_chunk")
     progs = random_programs(ctx, "c19ok", ctx.n(300, 5000)) + list(statement_pair_programs())[:: ctx.n(4, 1)] + \
         [s for _, s in corpus_files() if len(s) < ctx.n(40000, 10**9)]
+    # nesting up to the quantifier's bound in every recursive construct (many hints open at once)
+    for n in range(3, 21):
+        progs += ["x=" + "f(" * n + "1" + ")" * n, "x=" + "{" * n + "}" * n, "while a do " * n + "end " * n, "x=" + "function() return " * n + "1" + " end" * n,
+                  "if a then " * n + "end " * n, "x=" + "a[" * n + "1" + "]" * n, "x=" + "t:m(" * n + ")" * n, "x=" + "{f(" * (n // 2) + "1" + ")}" * (n // 2)]
     for src in progs:
         case = {"kind": "program", "source": src}
         with quiet():
@@ -3258,7 +3339,7 @@ LEAN_OBLIGATIONS.update({
 LAYOUT_OBL = ["Tumfl.Props.C08_remove_separators", "Tumfl.Props.C08_add_spacing", "Tumfl.Props.C08_remove_orphaned", "Tumfl.Props.C08_resolve_tokens",
               "Tumfl.Props.C08_join", "Tumfl.Props.C08_indent_brackets", "Tumfl.Props.C08_string_wrap", "Tumfl.Props.C08_wrap_progress", "Tumfl.Props.C02_boundary",
               "Tumfl.Props.C08_comment_wf", "Tumfl.Props.C08_comment_text"]
-PIECE_OBL = ["Tumfl.Props.C01_same_program", "Tumfl.Props.C02_same_program_final", "Tumfl.Props.C01_same_program_emit", "Tumfl.Props.EmitI_eq_emit_parsed", "Tumfl.Props.C02_same_program", "Tumfl.Props.C02_same_program_nocomments", "Tumfl.Props.Format_lex", "Tumfl.Props.Format_lex_exact", "Tumfl.Props.Format_comments",
+PIECE_OBL = ["Tumfl.Props.C01_default_style", "Tumfl.Props.C02_minified_style", "Tumfl.Inst.defaultStyle_repr_ok", "Tumfl.Inst.minifiedStyle_repr_ok", "Tumfl.Props.C01_same_program", "Tumfl.Props.C02_same_program_final", "Tumfl.Props.C01_same_program_emit", "Tumfl.Props.EmitI_eq_emit_parsed", "Tumfl.Props.C02_same_program", "Tumfl.Props.C02_same_program_nocomments", "Tumfl.Props.Format_lex", "Tumfl.Props.Format_lex_exact", "Tumfl.Props.Format_comments",
              "Tumfl.Props.Parse_numsCanon", "Tumfl.Props.Format_cex_semicolon", "Tumfl.Props.Format_cex_trailing_comma", "Tumfl.Props.Same_program", "Tumfl.Props.Same_tokens", "Tumfl.Props.Same_normS_eq", "Tumfl.Props.Same_normS_strength", "Tumfl.Props.Parse_printable", "Tumfl.Props.C10_parse_sound", "Tumfl.Props.C03_parse_complete", "Tumfl.Props.Print_sim", "Tumfl.Props.Print_sim_parseToks", "Tumfl.Props.Print_readings", "Tumfl.Props.C11_roundtrip", "Tumfl.Props.C11_emit_is_par", "Tumfl.Props.C11_emit_roundtrip", "Tumfl.Props.C11_minified", "Tumfl.Inst.brackets_sound_all",
              "Tumfl.Props.C06_quoted", "Tumfl.Props.C06_long", "Tumfl.Props.C06_forms", "Tumfl.Props.C06_wrapped", "Tumfl.Props.C07_partial", "Tumfl.Props.C13_emit_on"]
 FORMAT_MODULES = ["Tumfl.Props.Final", "Tumfl.Props.Format", "Tumfl.Props.Same", "Tumfl.Props.Parse", "Tumfl.Props.Print", "Tumfl.Props.C08", "Tumfl.Props.C11", "Tumfl.Props.C06", "Tumfl.Props.C07", "Tumfl.Props.C13"]
